@@ -104,8 +104,14 @@ pub fn io_print(_a: core::fmt::Arguments<'_>) {}
 /// which no property mentions.  (With std's `Instant` inside `ActionOp::Exit` the enum's
 /// discriminant lives in the nanosecond niche and CBMC loses track of the variant of queue
 /// items with a symbolic payload; measured: iterator / channeled harnesses did not finish.)
+// Under native playback (`cargo kani playback` builds the crate's own test configuration as
+// well, whose tests use std's Instant) the model type IS std's Instant.
+#[cfg(test)]
+pub use std::time::Instant;
+#[cfg(not(test))]
 #[derive(Clone, Copy, Debug, PartialEq, Eq, PartialOrd, Ord)]
 pub struct Instant;
+#[cfg(not(test))]
 impl Instant {
     pub fn now() -> Instant {
         Instant
@@ -124,7 +130,7 @@ pub fn instant_now() -> std::time::Instant {
 }
 /// the model instant, for harnesses that call the pipeline phases directly
 pub fn now_model() -> Instant {
-    Instant
+    Instant::now()
 }
 
 /// `Instant::elapsed` -> zero (std's Timespec subtraction is recursive and is unwound to the
